@@ -8,6 +8,7 @@ use std::sync::{LockResult, MutexGuard};
 static mut NOTIFIED: u32 = 0;
 static mut WAITS: u32 = 0;
 static mut LAST_WOKEN_VALUE: isize = 0;
+static mut MAX_WAITS: u32 = 2; // bound of the bounded units: at the latest this wake-up sees a released permit
 
 fn stub_notify_one(_cv: &Condvar) {
     unsafe { NOTIFIED += 1 };
@@ -18,7 +19,7 @@ fn stub_wait<'a, T>(_cv: &Condvar, mut guard: MutexGuard<'a, T>) -> LockResult<M
     unsafe {
         WAITS += 1;
         // bounded stand-in: at the latest the second wake-up sees a released permit
-        if WAITS >= 2 {
+        if WAITS >= MAX_WAITS {
             kani::assume(v > 0);
         }
         LAST_WOKEN_VALUE = v;
@@ -155,4 +156,45 @@ fn c19_acquire_under_interference_bounded() {
     let after = *s.lock.try_lock().unwrap();
     assert!(after >= 0, "C19.acquire.check_and_take_are_one_critical_section");
     kani::cover!(unsafe { WAITS } >= 1, "cover.waited");
+}
+
+// thorough tier: the two bounded acquire units with up to 4 wake-ups
+#[kani::proof]
+#[kani::stub(std::sync::Condvar::notify_one, stub_notify_one)]
+#[kani::stub(std::sync::Condvar::wait, stub_wait)]
+#[kani::unwind(6)]
+fn c19_acquire_after_wakeups_bounded4() {
+    let n: isize = kani::any();
+    kani::assume(n <= 0);
+    unsafe {
+        WAITS = 0;
+        LAST_WOKEN_VALUE = 0;
+        MAX_WAITS = 4;
+    }
+    let s = Semaphore::new(n);
+    s.acquire();
+    unsafe {
+        assert!(WAITS >= 1, "C19.acquire.blocks_while_no_permit");
+        assert!(LAST_WOKEN_VALUE > 0, "C19.acquire.proceeds_only_with_a_positive_counter");
+        assert!(count(&s) == LAST_WOKEN_VALUE - 1, "C19.acquire.takes_exactly_one_permit");
+        kani::cover!(WAITS == 4, "cover.three_spurious_wakeups_then_permit");
+    }
+}
+
+#[kani::proof]
+#[kani::stub(std::sync::Condvar::notify_one, stub_notify_one)]
+#[kani::stub(std::sync::Condvar::wait, stub_wait)]
+#[kani::stub(std::sync::Mutex::lock, stub_lock_with_interference)]
+#[kani::unwind(7)]
+fn c19_acquire_under_interference_bounded4() {
+    unsafe {
+        WAITS = 0;
+        LOCKS_TAKEN = 0;
+        MAX_WAITS = 4;
+    }
+    let s = Semaphore::new(0);
+    s.acquire();
+    let after = *s.lock.try_lock().unwrap();
+    assert!(after >= 0, "C19.acquire.check_and_take_are_one_critical_section");
+    kani::cover!(unsafe { WAITS } >= 3, "cover.waited_three_times");
 }
